@@ -105,7 +105,7 @@ def gen_call(rng):
         else:
             args = [s, rand_str(rng, 2), off] + ([str(rng.randint(0, 4))] if rng.random() < 0.5 else [])
     elif fn in ("padleft", "padright"):
-        args = [s, str(rng.randint(0, 14))] + ([rand_str(rng, 3, "ab0")] if rng.random() < 0.8 else [])
+        args = [s, str(rng.choice([rng.randint(0, 14)] * 9 + [499, 500, 501, 1000]))] + ([rand_str(rng, 3, "ab0")] if rng.random() < 0.8 else [])
     elif fn == "plural":
         args = [str(rng.choice([0, 1, 1, 2, 5, 11, 21])), "one", "many"]
     else:
@@ -155,7 +155,7 @@ def ref_fn(fn, args):
         return parts[pos] if 0 <= pos < len(parts) else ""
     if fn in ("padleft", "padright"):
         v = a(0)
-        cnt = int(a(1)) if a(1).strip().isdigit() else 0
+        cnt = min(int(a(1)), 500) if a(1).strip().isdigit() else 0      # MediaWiki limits the padded length to 500
         pad = args[2] if len(args) > 2 else "0"
         need = max(0, cnt - len(v))
         fill = "".join(pad[i % len(pad)] for i in range(need)) if pad else ""
